@@ -18,9 +18,18 @@ def make_ctx(spec: dict, all_visible: bool = False) -> explore.Ctx:
     n = len(plans)
     name = scen.name_of(spec)
 
+    spec_b = spec.get('second_table')
+    if spec_b:
+        plans_b = scen.plans_of(spec_b)
+        _, expected_b = P.build_session(plans_b, spec_b['teams'], scen.notations_of(spec_b))
+
     def factory():
-        return session.scripted_setup(plans, session.conforming_clients(plans, spec['teams'], nts, spec.get('sequential', False), spec.get('linger', False)),
-                                      server_kwargs=None, fragment=spec.get('fragment'), existing_output=spec.get('existing_output'))
+        a = session.scripted_setup(plans, session.conforming_clients(plans, spec['teams'], nts, spec.get('sequential', False), spec.get('linger', False)),
+                                   server_kwargs=None, fragment=spec.get('fragment'), existing_output=spec.get('existing_output'))
+        if not spec_b:
+            return a
+        b = session.scripted_setup(plans_b, session.conforming_clients(plans_b, spec_b['teams'], scen.notations_of(spec_b), prefix='cl2'), table=1)
+        return session.two_tables_setup(a, b)
 
     def judge(x: world.Execution, c: Counter, choices):
         rp = {'kind': 'session', 'spec': spec, 'choices': list(x.choices) if not (choices and choices[0] == 'priority') else None,
@@ -41,6 +50,11 @@ def make_ctx(spec: dict, all_visible: bool = False) -> explore.Ctx:
         if x.status == 'complete':
             for k, m in session.judge_log(x, expected):
                 c.violate(f'C08:{k}', f'[{name}] {m}', rp)
+            if spec_b:
+                class _X:          # the second table's log, judged like the first
+                    extra = x.extra['second_table']
+                for k, m in session.judge_log(_X, expected_b):
+                    c.violate(f'C08:{k}', f'[{name}, second table in the same process] {m}', rp)
             txt = x.extra.get('log_text') or ''
             c.see(f'log:{name}', hashlib.sha1(txt.encode()).hexdigest())
             c.see(f'sig:{name}', hash(session.outcome_signature(x)))
@@ -136,7 +150,7 @@ def replay(d: dict):
     ctx = make_ctx(spec, d.get('all_visible', False))
     c = Counter()
     if d.get('policy'):
-        x = explore.run_once(ctx, [], policy=prims.PriorityPolicy(d['policy'][1]))
+        x = explore.run_once(ctx, [], policy=prims.FairPolicy() if d['policy'][1] == '@fair' else prims.PriorityPolicy(d['policy'][1]))
         ctx.judge(x, c, d['policy'])
     elif d.get('choices') is None:
         return False, 'this violation compares several schedules; re-run the check'
